@@ -448,15 +448,16 @@ impl Serialize for dyn Rule {
         let properties = self.serialize_to_properties();
         let property_count = properties.len();
         let rule_name = self.get_name();
+        let metadata = self.metadata();
+        let filter_count = usize::from(!metadata.apply_to_filters.is_empty())
+            + usize::from(!metadata.skip_filters.is_empty());
 
-        if property_count == 0 {
+        if property_count == 0 && filter_count == 0 {
             serializer.serialize_str(rule_name)
         } else {
-            let mut map = serializer.serialize_map(Some(property_count + 1))?;
+            let mut map = serializer.serialize_map(Some(property_count + filter_count + 1))?;
 
             map.serialize_entry("rule", rule_name)?;
-
-            let metadata = self.metadata();
 
             if !metadata.apply_to_filters.is_empty() {
                 let filters = metadata
@@ -472,7 +473,7 @@ impl Serialize for dyn Rule {
                 }
             }
 
-            if !metadata.apply_to_filters.is_empty() {
+            if !metadata.skip_filters.is_empty() {
                 let filters = metadata
                     .skip_filters
                     .iter()
